@@ -254,4 +254,301 @@ theorem orOther_lang_order_irrelevant (π : Process.SetOrder) (pre post : List E
   simp only [List.foldl_append]
   rw [other_perm (π.perm langs) _ fun l hl => hpresent l ((π.perm langs).mem_iff.1 hl)]
 
+/-! ### generic invariants of `foldl upd` -/
+
+theorem upd_inv {γ} (R : Str → γ → Prop) (k : Str) (f : Option γ → γ) : ∀ (l : List (Str × γ)),
+    (∀ kv ∈ l, R kv.1 kv.2) → (∀ o, (∀ v, o = some v → R k v) → R k (f o)) →
+    ∀ kv ∈ upd k f l, R kv.1 kv.2
+  | [], _, hf, kv, h => by
+    simp only [upd, List.mem_singleton] at h
+    subst h
+    exact hf none (fun _ h => by cases h)
+  | (k', v') :: rest, h0, hf, kv, h => by
+    by_cases hk : k' = k
+    · subst hk
+      simp only [upd, if_true, List.mem_cons] at h
+      rcases h with h | h
+      · subst h
+        exact hf (some v') fun v hv => by cases hv; exact h0 (k', v') (List.mem_cons_self ..)
+      · exact h0 kv (List.mem_cons_of_mem _ h)
+    · simp only [upd, hk, if_false, List.mem_cons] at h
+      rcases h with h | h
+      · subst h; exact h0 (k', v') (List.mem_cons_self ..)
+      · exact upd_inv R k f rest (fun kv hkv => h0 kv (List.mem_cons_of_mem _ hkv)) hf kv h
+
+theorem foldl_upd_inv {α γ} (kf : α → Str) (g : α → Option γ → γ) (R : Str → γ → Prop) :
+    ∀ (xs : List α) (a0 : List (Str × γ)), (∀ kv ∈ a0, R kv.1 kv.2) →
+    (∀ x ∈ xs, ∀ o, (∀ v, o = some v → R (kf x) v) → R (kf x) (g x o)) →
+    ∀ kv ∈ xs.foldl (fun a x => upd (kf x) (g x) a) a0, R kv.1 kv.2
+  | [], _, h0, _ => h0
+  | x :: xs, a0, h0, hs => by
+    simp only [List.foldl_cons]
+    exact foldl_upd_inv kf g R xs _
+      (upd_inv R (kf x) (g x) a0 h0 (hs x (List.mem_cons_self ..)))
+      fun y hy => hs y (List.mem_cons_of_mem _ hy)
+
+theorem foldl_upd_keep {α γ} (kf : α → Str) (g : α → Option γ → γ) (S : γ → Prop) (k : Str) :
+    ∀ (xs : List α) (a0 : List (Str × γ)),
+    (∀ x ∈ xs, kf x = k → ∀ v, S v → S (g x (some v))) →
+    (∃ v, lookup k a0 = some v ∧ S v) →
+    ∃ v, lookup k (xs.foldl (fun a x => upd (kf x) (g x) a) a0) = some v ∧ S v
+  | [], _, _, h => h
+  | x :: xs, a0, hk, ⟨v, hl, hv⟩ => by
+    simp only [List.foldl_cons]
+    apply foldl_upd_keep kf g S k xs _ fun y hy => hk y (List.mem_cons_of_mem _ hy)
+    rw [lookup_upd]
+    by_cases he : k = kf x
+    · simp only [he, if_true]
+      refine ⟨_, rfl, ?_⟩
+      rw [← he, hl]
+      exact hk x (List.mem_cons_self ..) he.symm v hv
+    · simp only [he, if_false]
+      exact ⟨v, hl, hv⟩
+
+theorem foldl_upd_est {α γ} (kf : α → Str) (g : α → Option γ → γ) (S : γ → Prop) (k : Str) :
+    ∀ (xs : List α) (a0 : List (Str × γ)),
+    (∀ x ∈ xs, kf x = k → ∀ v, S v → S (g x (some v))) →
+    (∃ x ∈ xs, kf x = k ∧ ∀ o, S (g x o)) →
+    ∃ v, lookup k (xs.foldl (fun a x => upd (kf x) (g x) a) a0) = some v ∧ S v
+  | [], _, _, ⟨_, hx, _⟩ => by cases hx
+  | y :: xs, a0, hk, ⟨x, hx, hkx, hS⟩ => by
+    simp only [List.foldl_cons]
+    have hk' : ∀ z ∈ xs, kf z = k → ∀ v, S v → S (g z (some v)) := fun z hz => hk z (List.mem_cons_of_mem _ hz)
+    rcases List.mem_cons.1 hx with h | h
+    · subst h
+      apply foldl_upd_keep kf g S k xs _ hk'
+      rw [lookup_upd]
+      simp only [hkx, if_true]
+      exact ⟨_, rfl, hS _⟩
+    · exact foldl_upd_est kf g S k xs _ hk' ⟨x, h, hkx, hS⟩
+
+/-! ### content types, level by level -/
+
+theorem mem_keys_unionForms (acc : List (Str × Unit)) (fs : Forms) (c : Str) :
+    c ∈ keys (unionForms acc fs) ↔ c ∈ keys acc ∨ c ∈ keys fs := by
+  unfold unionForms
+  exact mem_keys_foldl_upd (fun _ _ => ()) fs acc c
+
+theorem mem_keys_keepForms (cs : List (Str × Unit)) (fs : Forms) (c : Str) :
+    c ∈ keys (cs.foldl (fun fs c => upd c.1 (fun o3 => o3.getD true) fs) fs) ↔ c ∈ keys fs ∨ c ∈ keys cs :=
+  mem_keys_foldl_upd (fun _ o3 => o3.getD true) cs fs c
+
+theorem allPaths_flat (T : Table) (acc : List (Str × List (Str × Unit))) :
+    T.foldl (fun acc lps => lps.2.foldl (fun a pf => upd pf.1 (fun o => unionForms (o.getD []) pf.2) a) acc) acc
+      = (T.flatMap (·.2)).foldl (fun a pf => upd pf.1 (fun o => unionForms (o.getD []) pf.2) a) acc := by
+  induction T generalizing acc with
+  | nil => rfl
+  | cons lps rest ih => simp only [List.foldl_cons, List.flatMap_cons, List.foldl_append, ih]
+
+/-- where a content type listed by `allPathsC` comes from -/
+def FromTable (T : Table) (p c : Str) : Prop := ∃ lps ∈ T, ∃ pf ∈ lps.2, pf.1 = p ∧ c ∈ keys pf.2
+
+theorem allPaths_sound (T : Table) : ∀ pc ∈ allPaths T, ∀ c ∈ keys pc.2, FromTable T pc.1 c := by
+  unfold allPaths
+  rw [allPaths_flat]
+  apply foldl_upd_inv (fun pf : Str × Forms => pf.1) (fun pf o => unionForms (o.getD []) pf.2)
+    (fun p cs => ∀ c ∈ keys cs, FromTable T p c)
+  · intro kv h; cases h
+  · intro pf hpf o ho c hc
+    rw [mem_keys_unionForms] at hc
+    rcases hc with hc | hc
+    · cases o with
+      | none => simp [keys] at hc
+      | some v => exact ho v rfl c hc
+    · obtain ⟨lps, hl, hm⟩ := List.mem_flatMap.1 hpf
+      exact ⟨lps, hl, pf, hm, rfl, hc⟩
+
+theorem lookup_some_of_mem_keys {β} (k : Str) : ∀ (l : List (Str × β)), k ∈ keys l → ∃ v, lookup k l = some v
+  | [], h => by simp [keys] at h
+  | (k', v') :: rest, h => by
+    by_cases hk : k = k'
+    · exact ⟨v', by simp [lookup, hk]⟩
+    · simp only [keys, List.map_cons, List.mem_cons] at h
+      rcases h with h | h
+      · exact absurd h hk
+      · obtain ⟨v, hv⟩ := lookup_some_of_mem_keys k rest h
+        exact ⟨v, by simp [lookup, hk, hv]⟩
+
+theorem mem_upd {β} (k : Str) (f : Option β → β) : ∀ (l : List (Str × β)) (kv : Str × β),
+    kv ∈ upd k f l → kv = (k, f (lookup k l)) ∨ kv ∈ l
+  | [], kv, h => by
+    simp only [upd, List.mem_singleton] at h
+    exact Or.inl (by simp [h, lookup])
+  | (k', v') :: rest, kv, h => by
+    by_cases hk : k' = k
+    · subst hk
+      simp only [upd, if_true, List.mem_cons] at h
+      rcases h with h | h
+      · exact Or.inl (by simp [h, lookup])
+      · exact Or.inr (List.mem_cons_of_mem _ h)
+    · have hk' : ¬ k = k' := fun e => hk e.symm
+      simp only [upd, hk, if_false, List.mem_cons] at h
+      rcases h with h | h
+      · exact Or.inr (by simp [h])
+      · rcases mem_upd k f rest kv h with h' | h'
+        · exact Or.inl (by simp [h', lookup, hk'])
+        · exact Or.inr (List.mem_cons_of_mem _ h')
+
+theorem allPathsC_sound (lists : List CList) (T : Table) : ∀ pc ∈ allPathsC lists T, ∀ c ∈ keys pc.2,
+    FromTable T pc.1 c ∨ pc.1 ∉ keys (allPaths T) := by
+  unfold allPathsC
+  have key : ∀ (cp : List (Str × List (Str × Unit))) (a0 : List (Str × List (Str × Unit))),
+      (∀ kv ∈ a0, ∀ c ∈ keys kv.2, FromTable T kv.1 c ∨ kv.1 ∉ keys (allPaths T)) →
+      (∀ p ∈ keys (allPaths T), p ∈ keys a0) →
+      ∀ kv ∈ cp.foldl (fun a pc => upd pc.1 (fun o => o.getD pc.2) a) a0,
+        ∀ c ∈ keys kv.2, FromTable T kv.1 c ∨ kv.1 ∉ keys (allPaths T) := by
+    intro cp
+    induction cp with
+    | nil => intro a0 h _; exact h
+    | cons pc rest ih =>
+      intro a0 h hsub
+      simp only [List.foldl_cons]
+      apply ih
+      · intro kv hkv c hc
+        rcases mem_upd _ _ a0 kv hkv with h' | h'
+        · subst h'
+          cases hl : lookup pc.1 a0 with
+          | some v =>
+            simp only [hl, Option.getD_some] at hc
+            exact h (pc.1, v) (mem_of_lookup hl) c hc
+          | none =>
+            refine Or.inr fun hp => ?_
+            obtain ⟨v, hv⟩ := lookup_some_of_mem_keys pc.1 a0 (hsub _ hp)
+            rw [hl] at hv; cases hv
+        · exact h kv h' c hc
+      · intro p hp
+        rw [mem_keys_upd]; exact Or.inl (hsub p hp)
+  exact key (choicePaths lists) (allPaths T)
+    (fun kv hkv c hc => Or.inl (allPaths_sound T kv hkv c hc)) (fun p hp => hp)
+
+theorem allPathsC_complete (lists : List CList) (T : Table) {p c : Str} (h : FromTable T p c) :
+    ∃ cs, lookup p (allPathsC lists T) = some cs ∧ c ∈ keys cs := by
+  obtain ⟨lps, hl, pf, hpf, hp, hc⟩ := h
+  unfold allPathsC
+  apply foldl_upd_keep (fun pc : Str × List (Str × Unit) => pc.1) (fun pc o => o.getD pc.2) (fun cs => c ∈ keys cs) p
+  · intro x _ _ v hv; simpa using hv
+  · unfold allPaths
+    rw [allPaths_flat]
+    apply foldl_upd_est (fun pf : Str × Forms => pf.1) (fun pf o => unionForms (o.getD []) pf.2) (fun cs => c ∈ keys cs) p
+    · intro x _ _ v hv
+      rw [mem_keys_unionForms]; exact Or.inl (by simpa using hv)
+    · exact ⟨pf, List.mem_flatMap.2 ⟨lps, hl, hpf⟩, hp, fun o => by rw [mem_keys_unionForms]; exact Or.inr hc⟩
+
+theorem padLang_sound (P : List (Str × List (Str × Unit))) (ps : Paths) : ∀ pf ∈ padLang P ps, ∀ c ∈ keys pf.2,
+    (∃ pf0 ∈ ps, pf0.1 = pf.1 ∧ c ∈ keys pf0.2) ∨ (∃ pc ∈ P, pc.1 = pf.1 ∧ c ∈ keys pc.2) := by
+  unfold padLang
+  apply foldl_upd_inv (fun pc : Str × List (Str × Unit) => pc.1)
+    (fun pc o => pc.2.foldl (fun fs c => upd c.1 (fun o3 => o3.getD true) fs) (o.getD []))
+    (fun p fs => ∀ c ∈ keys fs, (∃ pf0 ∈ ps, pf0.1 = p ∧ c ∈ keys pf0.2) ∨ (∃ pc ∈ P, pc.1 = p ∧ c ∈ keys pc.2))
+  · intro kv hkv c hc; exact Or.inl ⟨kv, hkv, rfl, hc⟩
+  · intro pc hpc o ho c hc
+    rw [mem_keys_keepForms] at hc
+    rcases hc with hc | hc
+    · cases o with
+      | none => simp [keys] at hc
+      | some v => exact ho v rfl c hc
+    · exact Or.inr ⟨pc, hpc, rfl, hc⟩
+
+theorem padLang_complete (P : List (Str × List (Str × Unit))) (ps : Paths) {pc : Str × List (Str × Unit)}
+    (hpc : pc ∈ P) {c : Str} (hc : c ∈ keys pc.2) :
+    ∃ fs, lookup pc.1 (padLang P ps) = some fs ∧ c ∈ keys fs := by
+  unfold padLang
+  apply foldl_upd_est (fun pc : Str × List (Str × Unit) => pc.1)
+    (fun pc o => pc.2.foldl (fun fs c => upd c.1 (fun o3 => o3.getD true) fs) (o.getD []))
+    (fun fs => c ∈ keys fs) pc.1
+  · intro x _ _ v hv
+    rw [mem_keys_keepForms]; exact Or.inl (by simpa using hv)
+  · exact ⟨pc, hpc, rfl, fun o => by rw [mem_keys_keepForms]; exact Or.inr hc⟩
+
+theorem keepForms_id : ∀ (cs : List (Str × Unit)) (fs : Forms), (∀ c ∈ cs, c.1 ∈ keys fs) →
+    cs.foldl (fun fs c => upd c.1 (fun o3 => o3.getD true) fs) fs = fs
+  | [], _, _ => rfl
+  | c :: cs, fs, h => by
+    simp only [List.foldl_cons]
+    obtain ⟨d, hd⟩ := lookup_some_of_mem_keys c.1 fs (h c (List.mem_cons_self ..))
+    rw [upd_id c.1 _ fs d hd rfl]
+    exact keepForms_id cs fs fun c' hc' => h c' (List.mem_cons_of_mem _ hc')
+
+theorem padLang_id : ∀ (P : List (Str × List (Str × Unit))) (ps : Paths),
+    (∀ pc ∈ P, ∃ fs, lookup pc.1 ps = some fs ∧ ∀ c ∈ pc.2, c.1 ∈ keys fs) → padLang P ps = ps
+  | [], _, _ => rfl
+  | pc :: P, ps, h => by
+    unfold padLang
+    simp only [List.foldl_cons]
+    obtain ⟨fs, hl, hc⟩ := h pc (List.mem_cons_self ..)
+    rw [upd_id pc.1 _ ps fs hl (by simp only [Option.getD_some]; exact keepForms_id pc.2 fs hc)]
+    exact padLang_id P ps fun pc' hpc' => h pc' (List.mem_cons_of_mem _ hpc')
+
+/-- **`_add_empty_translations` on an already padded table changes nothing.** -/
+theorem pad_pad (lists : List CList) (T : Table) : pad lists (pad lists T) = pad lists T := by
+  have hmap : ∀ lps1 ∈ pad lists T, (lps1.1, padLang (allPathsC lists (pad lists T)) lps1.2) = lps1 := by
+    intro lps1 h1
+    have : padLang (allPathsC lists (pad lists T)) lps1.2 = lps1.2 := by
+      apply padLang_id
+      intro pc hpc
+      -- every path listed is present in this language
+      have hpk : pc.1 ∈ keys lps1.2 := by
+        rw [mem_keys_pad h1]
+        have := (mem_keys_allPathsC lists (pad lists T) pc.1).1 (mem_keys_of_mem (v := pc.2) (by cases pc; exact hpc))
+        rcases this with ⟨lps', hl', hp'⟩ | hid
+        · exact (mem_keys_pad hl' pc.1).1 hp'
+        · exact Or.inr hid
+      obtain ⟨fs, hfs⟩ := lookup_some_of_mem_keys pc.1 lps1.2 hpk
+      refine ⟨fs, hfs, ?_⟩
+      intro c hc
+      have hck : c.1 ∈ keys pc.2 := mem_keys_of_mem (v := c.2) (by cases c; exact hc)
+      obtain ⟨lps, hl, hlps⟩ := mem_pad.1 h1
+      rcases allPathsC_sound lists (pad lists T) pc hpc c.1 hck with hft | hno
+      · -- the content type sits at this path in some language of the padded table
+        obtain ⟨lpsA, hA, pf, hpf, hp, hcf⟩ := hft
+        obtain ⟨lpsB, hB, hAB⟩ := mem_pad.1 hA
+        have hpf' : pf ∈ padLang (allPathsC lists T) lpsB.2 := by rw [hAB] at hpf; exact hpf
+        have hP0 : ∃ pc0 ∈ allPathsC lists T, pc0.1 = pc.1 ∧ c.1 ∈ keys pc0.2 := by
+          rcases padLang_sound _ _ pf hpf' c.1 hcf with ⟨pf0, hpf0, hp0, hc0⟩ | ⟨pc0, hpc0, hp0, hc0⟩
+          · obtain ⟨cs, hcs, hccs⟩ := allPathsC_complete lists T (p := pc.1) (c := c.1)
+              ⟨lpsB, hB, pf0, hpf0, hp0.trans hp, hc0⟩
+            exact ⟨(pc.1, cs), mem_of_lookup hcs, rfl, hccs⟩
+          · exact ⟨pc0, hpc0, hp0.trans hp, hc0⟩
+        obtain ⟨pc0, hpc0, hp0, hc0⟩ := hP0
+        obtain ⟨fs', hfs', hcfs'⟩ := padLang_complete (allPathsC lists T) lps.2 hpc0 hc0
+        rw [hlps] at hfs
+        simp only at hfs
+        rw [hp0, hfs] at hfs'
+        cases hfs'
+        exact hcfs'
+      · exact absurd ((mem_keys_allPaths (pad lists T) pc.1).2 ⟨lps1, h1, hpk⟩) hno
+    rw [this]
+  unfold pad at hmap ⊢
+  conv => rhs; rw [← List.map_id (List.map _ T)]
+  exact List.map_congr_left hmap
+
+/-! ### the second `xml()` -/
+
+/-- **`_translations` across repeated `xml()` calls** (nesting, media, padding): the table after the
+second `xml_model()` — setup and media entries assigned again into the *padded* table of the first
+call, then padded again — is the table after the first; so is every later one.  Guard `NoConflict`:
+see `second_setup_noop`. -/
+theorem itext_setup_idempotent (lists : List CList) (es : List Ent) (hn : NoConflict es) :
+    pad lists (es.foldl ins (pad lists (setup es))) = pad lists (setup es) := by
+  rw [second_setup_noop lists es hn, pad_pad]
+
+/-- … hence the `<itext>` block of the regenerated XForm is the same -/
+theorem itext_block_idempotent (dl : Str) (lists : List CList) (es : List Ent) (hn : NoConflict es) :
+    itext dl (pad lists (es.foldl ins (pad lists (setup es)))) = itext dl (pad lists (setup es)) := by
+  rw [itext_setup_idempotent lists es hn]
+
+def demoEnts : List Ent :=
+  [⟨"en".toList, "yn-0".toList, "long".toList, false⟩, ⟨"fr".toList, "yn-0".toList, "long".toList, false⟩,
+   ⟨"en".toList, "/d/q:label".toList, "long".toList, false⟩, ⟨"en".toList, "/d/q:hint".toList, "guidance".toList, false⟩,
+   ⟨"fr".toList, "/d/q:label".toList, "image".toList, false⟩, ⟨"en".toList, "/d/q:label".toList, "long".toList, false⟩]
+
+instance : Decidable (NoConflict demoEnts) := by unfold NoConflict; infer_instance
+example : NoConflict demoEnts := by decide
+-- the padded table really has padding (French lacks the guidance hint and the label text):
+example : valAt (pad [] (setup demoEnts)) "fr".toList "/d/q:hint".toList "guidance".toList = some true := by decide
+example : pad [] (demoEnts.foldl ins (pad [] (setup demoEnts))) = pad [] (setup demoEnts) := by rfl
+-- or_other: French and English both have a translation before the generated choice is reached
+example : setup (demoEnts ++ otherEntries "yn-1".toList ["fr".toList, "en".toList] ++ [])
+    = setup (demoEnts ++ otherEntries "yn-1".toList ["en".toList, "fr".toList] ++ []) := by rfl
+
 end Pyxv.C14
